@@ -100,7 +100,7 @@ fn hash_of(i: u8) -> [u8; 20] {
     h
 }
 
-pub fn run(out: &mut impl Write, seed: u64, cases: usize, _replay: &str, uring_resp_buf: usize, mio_only: bool) {
+pub fn run(out: &mut impl Write, seed: u64, cases: usize, _replay: &str, uring_resp_buf: usize, mio_only: bool, boundaries_first: bool) {
     let mut master = Sm::new(seed);
     let dir = std::path::Path::new(env!("CARGO_MANIFEST_DIR")).join("target").join("tmp").join(format!("aqv-udpnet-{}", std::process::id()));
     std::fs::create_dir_all(&dir).unwrap();
@@ -108,13 +108,15 @@ pub fn run(out: &mut impl Write, seed: u64, cases: usize, _replay: &str, uring_r
         let mut r = master.fork(case as u64);
         // C18 boundary scenario: the largest announce reply the configuration allows, one peer beyond
         // what the back end's send buffer holds (IPv6 entries are 18 bytes)
-        let boundary = case % 6 == 5;
-        let backend = if boundary { if (case / 6) % 2 == 0 { "uring" } else { "mio" } } else if case % 2 == 0 { "mio" } else { "uring" };
+        // (`--boundaries-first 1`: the four boundary scenarios - both back ends, at and over the limit - come first)
+        let bf = boundaries_first && case < 4;
+        let boundary = bf || case % 6 == 5;
+        let backend = if bf { if case % 2 == 0 { "uring" } else { "mio" } } else if boundary { if (case / 6) % 2 == 0 { "uring" } else { "mio" } } else if case % 2 == 0 { "mio" } else { "uring" };
         let backend = if mio_only { "mio" } else { backend };
         let send_buf: usize = if backend == "uring" { uring_resp_buf } else { aquatic_udp::common::BUFFER_SIZE };
         let max_scrape: u8 = r.pick(&[3u8, 70, 70]);
         // alternately exactly at the limit (must be accepted and delivered whole) and one beyond (must be refused)
-        let over = (case / 12) % 2 == 1;
+        let over = if bf { case >= 2 } else { (case / 12) % 2 == 1 };
         let max_peers: usize = if boundary { (send_buf - 20) / 18 + if over { 1 } else { 0 } } else { r.pick(&[2usize, 30]) };
         let stale_case = case % 5 == 4;
         let age: u32 = if stale_case { 1 } else { 120 };
